@@ -184,7 +184,7 @@ fn token_fault_case(src: &mut Src, ctx: &mut Ctx) -> Result<(), String> {
 
 // ---- (ii-b) floods: one token (or short phrase) repeated 50 000 times, read on a small stack ---------------------
 const FLOOD_COPIES: usize = 50_000;
-const FLOOD_PHRASES: &[&str] = &["PROPERTY a 1 ;", "PROPERTY a 1", "RECT 0 0 1 1 ;", "LAYER m ;", "PORT", "END", "MACRO m", "PIN p", "OBS", "BEGINEXT \"t\"", "\"s\"", "# c\n", "( ", "ITERATE", "DO 1 BY 1 STEP 1 1", "VIA 0 0 v ;", "POLYGON 0 0 1 1 2 0", "1", "- 1", "é", "\u{2003}"];
+const FLOOD_PHRASES: &[&str] = &["PROPERTY a 1 ;", "PROPERTY a 1", "RECT 0 0 1 1 ;", "LAYER m ;", "PORT", "END", "MACRO m", "PIN p", "OBS", "BEGINEXT \"t\"", "\"s\"", "# c\n", "\n", "\r\n", "BEGINEXT \"t\" ENDEXT", "( ", "ITERATE", "DO 1 BY 1 STEP 1 1", "VIA 0 0 v ;", "POLYGON 0 0 1 1 2 0", "1", "- 1", "é", "\u{2003}"];
 fn flood_total() -> u64 {
     (REPLACEMENTS.len() + FLOOD_PHRASES.len()) as u64 * 4
 }
@@ -256,7 +256,7 @@ fn soup(src: &mut Src) -> String {
             2 => s.push(';'),
             3 => s.push_str(&gen_name(src)),
             4 => s.push_str(*src.pick(ODD)),
-            5 => s.push_str(*src.pick(&["1e6", "-", ".", "1.2.3", "--1", "1e999", "nan", "inf", "0x10", "18T", "\"unterminated", "\"q\"", "# c", "+5", "79228162514264337593543950335", "-79228162514264337593543950335", "99999999999999999999999999999", "0.0000000000000000000000000001", "10000000000000000000000000000"])),
+            5 => s.push_str(*src.pick(&["1e6", "-", ".", "1.2.3", "--1", "1e999", "nan", "inf", "0x10", "18T", "\"unterminated", "\"q\"", "# c", "+5", "BEGINEXT \"t\" ENDEXT", "BEGINEXT \"t\" # c\n ENDEXT", "79228162514264337593543950335", "-79228162514264337593543950335", "99999999999999999999999999999", "0.0000000000000000000000000001", "10000000000000000000000000000"])),
             _ => {
                 let c = char::from_u32(src.below(0x11_0000) as u32).unwrap_or('x');
                 s.push(c);
